@@ -30,6 +30,11 @@ def check(run):
     if thorough:
         plan.append(('real run: process T1 N=4, stream length 6', EQ + ({'S': 6, 'N': 4, 'pending': 0},), 3000, False))
         plan.append(('real run: streams not ending in LF, N=3, S=4', EQ + ({'S': 4, 'N': 3, 'pending': 2, 'force_nl': False},), 2400, True))
+    two = (b'A:X:Q?\n' * 2).hex()
+    plan.append(('real run: two string queries "A:X:Q?" whose answers (13 bytes each) fit the response buffer one at a time but not together, N=16, every chunking of the 14-byte stream',
+                 EQ + ({'S': 14, 'N': 16, 'concrete': two, 'long_answers': True, 'pending': 0, 'max_empty': 0},), 900, True))
+    if thorough:
+        plan.append(('real run: "X;A:X:Q?" then "A:X:Q?", long answers, N=24', EQ + ({'S': 16, 'N': 24, 'concrete': (b'X;A:X:Q?\nA:X:Q?\n').hex(), 'long_answers': True, 'pending': 0, 'max_empty': 0},), 2400, False))
     done_b = []
     for name, spec, secs, req in plan:
         st = run.explore(name, spec, secs, required=req)
@@ -83,6 +88,8 @@ def confirm(run, v):
         from ..checks.abstract_process import find_real_instance
         return find_real_instance(run, v)
     base = {'entry': 'process', 'device': v['device'], 'input': v['input'], 'n': v['n']}
+    if v.get('long_answers'):
+        base['script'] = {str(i): ['ok', 'str:' + b'0123456789'.hex()] for i in range(8)}
     detail = {}
     ok_all = True
     for rel in (False, True):
@@ -104,7 +111,7 @@ def confirm(run, v):
             # one device across messages is not expressible as separate native cases: replay as one run call per message on fresh
             # devices is only equivalent for handler logs, so compare logs and outputs message by message
             for m in msgs:
-                o = run.native([{'entry': 'run', 'device': v['device'], 'input': m.hex(), 'cap': v['n']}], release=rel)[0]
+                o = run.native([{'entry': 'run', 'device': v['device'], 'input': m.hex(), 'cap': v['n'], 'script': base.get('script')}], release=rel)[0]
                 ev += o.get('events', [])
                 out += o.get('out', '')
             ok = ([e for e in b.get('events', [])], b.get('out')) != (ev, out)
